@@ -8,6 +8,11 @@ Streams
                  ("Solution Not Found") or an assertion fires did not return: counted, outside the property.
                  On every returned run the property's clauses are evaluated with Fractions on the returned
                  `(die, allocation)` (spec on implementation).
+                 Two instance families: mixed dies (blockages, fixed regions, soft/hard/flippable modules) and
+                 "settled start" (grid of cells, one module per cell with a square of 0.9-1.25 cell sides: every cell has a
+                 dominant module above the threshold although the initial allocation over-occupies cells; max_iter 1..3, None).
+  loop-live      the observed sequence of must_be_refined / refine / optimize_allocation calls of each run replayed
+                 through the model's loop `loopG` (driver op `loop`): loop structure, incl. "optimise before stopping".
   extract-live   every `extract_solution` call of those runs: captured answer -> Lean `extractSolution` (Float) vs what
                  Python returned, tolerance 1e-9; `SolverPost` monitored (anomalies are evidence, not violations).
   consts-live    which entries of `model.a` are constants / variables and `get_a`: Lean `aIsConst`/`getA` vs Python.
@@ -46,6 +51,7 @@ TRUSTED = [
     "harness (Python): wrapping of extract_solution / optimize_allocation, comparison, exact clause evaluation",
 ]
 
+MAX_PASSES_UNBOUNDED = 6   # `max_iter=None` runs are cut by the harness after this many optimisations
 SOLVER_TOL = 1e-6      # tolerance granted to the solver on cell rows (IPOPT constraint tolerance)
 GEO_TOL = Fraction(1, 10 ** 9)
 
@@ -468,6 +474,75 @@ def gen_instance(rng, idx: int) -> dict:
             "alpha": rng.choice([0.1, 0.3, 0.5, 0.9]), "max_iter": rng.choice([1, 2, 2, 3])}
 
 
+def gen_settled(rng, idx: int) -> dict:
+    """'settled start': a regular grid of cells (initial-grid path or explicit refinement), one module centred per cell
+    whose initial square has a side between 0.9 and 1.25 of the cell side, so that every cell already has a dominant
+    module above the threshold while neighbours leak into each other (the INITIAL allocation over-occupies cells).
+    What glbfloor returns must nevertheless be feasible: the loop optimises before it may stop."""
+    side = rng.choice([1, 1, 2, 1.5])
+    if rng.random() < 0.6:
+        rows, cols = rng.choice([(1, 2), (2, 2), (2, 3), (2, 3), (3, 2), (1, 3), (2, 4), (2, 4), (3, 3), (3, 3), (3, 4)])
+        W, H = cols * side, rows * side
+        refine = {"grid": [rows, cols]}
+    else:
+        a, b, n = rng.choice([(2, 1, 2), (2, 2, 4), (4, 2, 8), (4, 2, 8), (2, 4, 8), (4, 1, 4)])
+        W, H = a * side, b * side
+        refine = {"split": [rng.choice([1.5, 2.0]), n]}
+    Rectangle.undefine_epsilon()
+    try:
+        die = Die(_yaml({"width": W, "height": H}))
+        if "grid" in refine:
+            die.initial_grid(*refine["grid"])
+        else:
+            die.split_refinable_regions(*refine["split"])
+        cells = [(r.center.x, r.center.y, r.shape.w, r.shape.h) for r in die.floorplanning_rectangles()[0]]
+    finally:
+        Rectangle.undefine_epsilon()
+    thr = rng.choice([0.85, 0.9, 0.9, 0.95])
+    lo = math.sqrt(thr) + 0.005
+    n = len(cells)
+    leakers = set(rng.sample(range(n), min(n, rng.choice([1, 1, 2]))))
+    fs = []
+    for i in range(n):
+        if i in leakers:
+            fs.append(rng.uniform(1.04, 1.25))
+        elif rng.random() < 0.1:
+            fs.append(0.9)                       # not dominant for thr >= 0.85 when squared (0.81): unsettled variety
+        else:
+            fs.append(rng.uniform(lo, 1.0))
+    total = lambda: sum((f * min(c[2], c[3])) ** 2 for f, c in zip(fs, cells))
+    cap = rng.choice([0.9, 0.95, 0.98]) * W * H   # keep the instance feasible: total module area below the die area
+    for i in range(n):
+        if total() <= cap:
+            break
+        if i not in leakers and fs[i] > lo:
+            fs[i] = lo
+    for _ in range(12):
+        if total() <= cap:
+            break
+        for i in leakers:
+            fs[i] = 1 + (fs[i] - 1) * 0.7
+    modules, order = {}, []
+    for i, (f, (cx, cy, w, h)) in enumerate(zip(fs, cells)):
+        s_ = f * min(w, h)
+        shift = 0.0
+        if i in leakers and rng.random() < 0.5:   # leak on one side only (towards the inside of the die)
+            shift = (s_ - min(w, h)) / 2 * (1 if cx < W / 2 else -1)
+        name = f"M{i}"
+        if rng.random() < 0.3:
+            modules[name] = {"hard": True, "rectangles": [[cx + shift, cy, s_, s_]]}
+        else:
+            modules[name] = {"area": s_ * s_, "center": [cx + shift, cy]}
+        order.append(name)
+    nets = []
+    for _ in range(rng.randint(1, max(1, n))):
+        if n >= 2:
+            nets.append(rng.sample(order, 2))
+    return {"idx": idx, "family": "settled", "die": {"width": W, "height": H, "regions": []}, "modules": modules,
+            "order": order, "nets": nets, "refine": refine, "thr": thr, "alpha": rng.choice([0.1, 0.3, 0.5]),
+            "max_iter": rng.choice([1, 2, 3, None])}
+
+
 def _yaml(obj) -> str:
     import json
     return json.dumps(obj)   # JSON is YAML
@@ -632,9 +707,32 @@ def run_instance(inst: dict) -> dict:
     cur: dict = {}
     o_opt, o_ext, o_sol = opt.optimize_allocation, opt.extract_solution, opt.solve_and_extract_solution
 
+    from frame.allocation.allocation import Allocation
+    o_must, o_ref = Allocation.must_be_refined, Allocation.refine
+    loop: list = []
+    out["loop"] = loop
+
+    def w_must(self, threshold):
+        r = o_must(self, threshold)
+        loop.append(["M", bool(r)])
+        return r
+
+    def w_ref(self, threshold, *a, **k):
+        r = o_ref(self, threshold, *a, **k)
+        loop.append(["R"])
+        return r
+
     def w_opt(die, allocation, *a, **k):
         cur["allocation"] = allocation
-        return o_opt(die, allocation, *a, **k)
+        if inst["max_iter"] is None and sum(1 for e in loop if e[0] == "O") >= MAX_PASSES_UNBOUNDED:
+            raise _Stop()       # harness budget for `max_iter=None` runs that keep refining
+        try:
+            r = o_opt(die, allocation, *a, **k)
+        except Exception:
+            loop.append(["O", False])
+            raise
+        loop.append(["O", True])
+        return r
 
     def w_sol(model, *a, **k):
         try:
@@ -693,6 +791,7 @@ def run_instance(inst: dict) -> dict:
     try:
         try:
             die = build_instance(inst)
+            Allocation.must_be_refined, Allocation.refine = w_must, w_ref   # only while glbfloor itself runs
         except AssertionError as e:
             out["status"] = "rejected-input"
             out["exc"] = type(e).__name__
@@ -705,7 +804,9 @@ def run_instance(inst: dict) -> dict:
         except Exception as e:   # noqa: BLE001 — classify, never compare messages
             tb = traceback.extract_tb(e.__traceback__)
             in_gekko = any(os.sep + "gekko" + os.sep in f.filename for f in tb)
-            if in_gekko:
+            if isinstance(e, _Stop):
+                out["status"] = "harness-budget"         # unbounded run cut by the harness: counted, not a return
+            elif in_gekko:
                 out["status"] = "gekko-raised"          # "Solution Not Found": did not return
             elif isinstance(e, AssertionError):
                 out["status"] = "raised:AssertionError"  # e.g. the Allocation constructor refusing a ratio 1+1e-9
@@ -721,7 +822,32 @@ def run_instance(inst: dict) -> dict:
         return out
     finally:
         opt.optimize_allocation, opt.extract_solution, opt.solve_and_extract_solution = o_opt, o_ext, o_sol
+        Allocation.must_be_refined, Allocation.refine = o_must, o_ref
         Rectangle.undefine_epsilon()
+
+
+def loop_check(ctx: Ctx, inst: dict, out: dict, reqs: list, todo: list) -> None:
+    """loop structure: the observed sequence of must_be_refined / refine / optimize_allocation calls of the real
+    `glbfloor` replayed through the model's loop (`loopG`, driver op `loop`)."""
+    ev = out.get("loop")
+    if ev is None or out["status"] in ("rejected-input",):
+        return
+    ms = [e[1] for e in ev if e[0] == "M"]
+    os_ = [e[1] for e in ev if e[0] == "O"]
+    if out["status"] == "returned":
+        acts = [("R" if e[0] == "R" else "O") for e in ev if e[0] != "M"]
+        rest = "0" if ev and ev[-1] == ["M", False] else "-"
+        exp = f"ret {','.join(acts) if acts else '-'} {rest} 0"
+    elif ev and ev[-1] == ["O", False]:
+        exp = "none"
+    else:
+        return          # raised outside optimize_allocation (initial allocation, refine): not a loop observation
+    mi = -1 if inst["max_iter"] is None else inst["max_iter"]
+    reqs.append(f"F loop {mi} {len(os_) + 3} {len(ms)}" + "".join(f" {int(b)}" for b in ms) +
+                f" {len(os_)}" + "".join(f" {int(b)}" for b in os_))
+    todo.append(("loop-live", {"kind": "glb", "inst": inst}, exp, "X", len(ev)))
+    ctx.case("loop-live", (inst["idx"], str(ev), mi), len(ev) > 1)
+    ctx.count("loop:" + "".join(e[0] + (str(int(e[1])) if len(e) > 1 else "") for e in ev)[:24])
 
 
 def run_instances(insts: list[dict]) -> list[dict]:
@@ -925,7 +1051,9 @@ def run(ctx: Ctx) -> None:
     ctx.rule = ("glb: generated dies 4..8 x 4..6 (50% with 1-2 blockages, 0-2 fixed modules on integer boxes), <= 5 modules "
                 "(0-2 movable hard with 1-3 rectangles, half flippable; 1-3 soft; every module initially at least 60% on free area), 1-4 nets, initial grid / split into 2-8 "
                 "regions, threshold in {0.5..0.99}, alpha in {0.1,0.3,0.5,0.9}, max_iter in {1,2,3}; a run is non-trivial iff "
-                "glbfloor returned.  extract-synth: synthetic answers (ratios 0 / 1 / exactly 1-thr / out of range / random; "
+                "glbfloor returned.  settled: rows x cols grid (initial_grid or split of a power-of-two die), one soft/hard module "
+                "centred per cell, square side 0.9-1.25 cell sides (1-2 leakers > 1), thr in {0.85,0.9,0.95}, max_iter in {1,2,3,None}, "
+                "total module area < die area.  extract-synth: synthetic answers (ratios 0 / 1 / exactly 1-thr / out of range / random; "
                 "sub-rectangle coordinates same / mirrored / random) on the real extract_solution; distinct = distinct "
                 "(instance | answer).  consts-synth: initial allocations of generated instances with ratios overwritten by "
                 "threshold / 1-threshold / 0 / 1 / 0.5 / removed.  sum: float lists incl. cancellation patterns")
@@ -945,6 +1073,8 @@ def run(ctx: Ctx) -> None:
     # ---- real runs
     n_runs = ctx.n(32, 320)
     insts = [gen_instance(ctx.rng, i) for i in range(n_runs)]
+    insts += [gen_settled(ctx.rng, n_runs + i) for i in range(ctx.n(16, 120))]
+    n_runs = len(insts)
     outs = run_instances(insts)
     status: dict[str, int] = {}
     for inst, out in zip(insts, outs):
@@ -954,7 +1084,8 @@ def run(ctx: Ctx) -> None:
                  sample=({"die": inst["die"], "modules": inst["modules"], "thr": inst["thr"], "alpha": inst["alpha"],
                           "max_iter": inst["max_iter"], "refine": inst["refine"], "status": out["status"],
                           "cells_returned": len(out.get("final_alloc", []))} if returned else None))
-        ctx.count("glb:" + out["status"])
+        ctx.count(("settled:" if inst.get("family") == "settled" else "glb:") + out["status"])
+        loop_check(ctx, inst, out, reqs, todo)
         if out["status"].startswith("operation-raised"):
             ctx.spec_fail("operation-raised", {"kind": "glb", "inst": inst}, {"exception": out["exc"], "where": out.get("trace")},
                           len(inst["order"]))
@@ -991,6 +1122,7 @@ def replay(ctx: Ctx, body: dict) -> None:
             spec_run(ctx, inst, out)
         elif out["status"].startswith("operation-raised"):
             ctx.spec_fail("operation-raised", inp, {"exception": out["exc"], "where": out.get("trace")})
+        loop_check(ctx, inst, out, reqs, todo)
         check_calls(ctx, inst, out, reqs, todo)
     elif inp["kind"] == "extract":
         one_synth(ctx, inp["case"], inp.get("mode", "F"), reqs, todo)
